@@ -20,6 +20,7 @@ type kaStep struct {
 	Expect string `json:"expect"`
 	Fed    bool   `json:"fed"`
 	Prior  string `json:"prior"`
+	Hold   int    `json:"hold"`
 }
 
 // runKeepAlive executes one client schedule against a fresh broker with KeepAlive = k seconds.
@@ -91,8 +92,18 @@ func runKeepAlive(steps []kaStep, k, req int, unit time.Duration) string {
 	var mu sync.Mutex
 	var closedAt time.Time
 	pongs := 0
+	paused := false // the client does not read for a while (kind "backlog")
 	go func() {
 		for {
+			for {
+				mu.Lock()
+				p := paused
+				mu.Unlock()
+				if !p {
+					break
+				}
+				time.Sleep(5 * time.Millisecond)
+			}
 			p, err := readPkt(m.c, time.Hour)
 			if err != nil {
 				mu.Lock()
@@ -131,6 +142,32 @@ func runKeepAlive(steps []kaStep, k, req int, unit time.Duration) string {
 			}
 			m.c.SetWriteDeadline(time.Now().Add(time.Second))
 			var err error
+			if st.Kind == "backlog" {
+				// 30000 PINGREQs in one write while nothing is read: the broker takes what its two 16 KiB rings hold
+				// and leaves the rest on offer; after the hold the client reads again and everything goes through
+				mu.Lock()
+				paused = true
+				mu.Unlock()
+				const n = 30000
+				flood := make([]byte, 2*n)
+				for j := 0; j < n; j++ {
+					flood[2*j] = 0xc0
+				}
+				done := make(chan error, 1)
+				m.c.SetWriteDeadline(time.Now().Add(time.Duration(st.Hold)*unit + 10*time.Second))
+				go func() { _, e := m.c.Write(flood); done <- e }()
+				time.Sleep(time.Duration(st.Hold) * unit)
+				mu.Lock()
+				paused = false
+				mu.Unlock()
+				if e := <-done; e != nil {
+					return fmt.Sprintf("step %d: the client had %d PINGREQs on offer for %v without reading the answers, then read again: the rest of its packets was not taken (%v) - "+
+						"dropped although it was never silent (KeepAlive %ds)", i, n, time.Duration(st.Hold)*unit, e, k)
+				}
+				wantPongs += n
+				lastSend = time.Now()
+				continue
+			}
 			if st.Kind == "ping" {
 				_, err = m.c.Write([]byte{0xc0, 0})
 				wantPongs++
